@@ -1,6 +1,6 @@
 """C12 — manifest text means what the manual says (DESIGN 5.12)."""
 from facts import AnalysisBroken
-from model import (path_value, store_arms, dstr, strip, fact_holds, mentions_field, mentions_call, mentions_var,
+from model import (facts_str, path_value, store_arms, dstr, strip, fact_holds, mentions_field, mentions_call, mentions_var,
                    mentions_enum, const_value, walk)
 from rules import (deep_resolve, answer_sites, reached_only_through, guarded, calls_to, field_writes, who_may_call, full_range, loops_over,
                    every_iteration_passes, basename, origins, is_var, is_enum, lastname,
@@ -540,3 +540,107 @@ def run(ctx):
                                                                     (p_ is True and 'size()' in dstr(a) and '== 0' in dstr(a) and pn_ in dstr(a))
                                                                     for k_, p_, a in w.edge_facts(b2, i2)))
     ctx.floor('C12.CN', 10)
+    check_evalstring(ctx)
+
+
+
+def check_evalstring(ctx):
+    """C12.EV1: the token list behind every `$`-expansion."""
+    from rules import loops_over, every_iteration_passes
+    prog = ctx.prog
+    ctx.rule('C12.EV1', 'O', 'EvalString: Evaluate() walks the whole token list and appends, per token, the text itself for a RAW token and '
+             'the environment\'s value of the name for every other one - nothing else; AddText() keeps the text on every path (in the '
+             'single-token string, glued to a trailing RAW token, or as a new RAW token); AddSpecial() first moves a pending '
+             'single-token text into the list (so text before a variable stays before it) and then appends the name as SPECIAL')
+    ev = prog.fn('EvalString::Evaluate')
+    ls = loops_over(ev, 'EvalString::parsed_')
+    ctx.check('C12.EV1', len(ls) == 1 and ls[0]['full'], ev.name, 'Evaluate:partial-loop', ev.loc, 'Evaluate() iterates over all of parsed_')
+    appends = [e for e in ev.events('call') if lastname(e.get('name') or '') == 'append']
+    ctx.check('C12.EV1', len(appends) >= 2, ev.name, 'Evaluate:appends', ev.loc, 'Evaluate() appends per token (%d append sites)' % len(appends))
+
+    def is_raw(a):
+        a = strip(a)
+        return isinstance(a, dict) and a.get('k') == 'bin' and a['op'] == '==' and mentions_enum(a, 'EvalString::RAW') and 'second' in dstr(a)
+    nraw = nvar = 0
+    for e in appends:
+        facts = ev.facts_at(e)
+        arg = (e.get('args') or [None])[0]
+        looked = mentions_call(arg, 'Env::LookupVariable')
+        if looked:
+            nvar += 1
+            ctx.check('C12.EV1', fact_holds(facts, is_raw, False) and 'first' in dstr(arg), ev.name, 'Evaluate:lookup-of-raw-text', ev.where(e),
+                      'a variable is looked up (by the token\'s own text) only for a token that is not RAW; facts: %s' % facts_str(facts)[:5])
+        else:
+            nraw += 1
+            ctx.check('C12.EV1', fact_holds(facts, is_raw, True) and 'first' in dstr(arg) and not any(
+                x.get('k') == 'call' and not lastname(x.get('name') or '').startswith('operator') and lastname(x.get('name') or '') not in ('basic_string', 'StringPiece')
+                for x in walk(arg)), ev.name, 'Evaluate:raw-text-altered', ev.where(e),
+                'literal text is appended unchanged, and only for a RAW token (%s)' % dstr(arg)[:60])
+    ctx.check('C12.EV1', nraw >= 1 and nvar >= 1, ev.name, 'Evaluate:token-kinds', ev.loc, 'both token kinds are handled (%d raw, %d variable)' % (nraw, nvar))
+    for l in ls:
+        every_iteration_passes(ctx, 'C12.EV1', ev, l, lambda x: any(x is a for a in appends), 'every token contributes to the result', 'Evaluate:token-skipped')
+    # the shortcut for a string without variables returns the text as it is
+    for e in ev.events('ret'):
+        facts = ev.facts_at(e)
+        if fact_holds(facts, lambda a: 'parsed_' in dstr(a) and 'empty' in dstr(a), True):
+            ctx.check('C12.EV1', dstr(strip(e.get('e'))).endswith('single_token_'), ev.name, 'Evaluate:single-token-altered', ev.where(e),
+                      'with an empty token list the single-token text is the value (%s)' % dstr(e.get('e'))[:60])
+    at = prog.fn('EvalString::AddText')
+    keeps = [e for e in at.events('call') if lastname(e.get('name') or '') in ('append', 'push_back', 'emplace_back') and
+             any(mentions_var(a, 'text') for a in (e.get('args') or []))]
+    r = at.find_path(None, lambda x: x['k'] == 'ret' or x is None, from_succ=at.entry, is_blocker=lambda x: any(x is k for k in keeps))
+    r2 = None
+    if r is None and not any(True for _ in at.events('ret')):
+        # void function without a return statement: reach the exit block
+        r2 = _path_to_exit(at, keeps)
+    ctx.check('C12.EV1', bool(keeps) and r is None and r2 is None, at.name, 'AddText:text-dropped', at.loc,
+              'AddText() stores its text on every path (%d storing sites)' % len(keeps))
+    for e in keeps:
+        if lastname(e.get('name') or '') == 'append' and 'back()' in dstr(e.get('recv')):
+            ctx.check('C12.EV1', fact_holds(at.facts_at(e), lambda a: mentions_enum(a, 'EvalString::RAW') and 'back' in dstr(a), True), at.name,
+                      'AddText:glued-to-variable', at.where(e), 'text is glued to the last token only if that token is RAW (never to a variable name)')
+        if lastname(e.get('name') or '') in ('push_back', 'emplace_back'):
+            ctx.check('C12.EV1', mentions_enum(e.get('args'), 'EvalString::RAW'), at.name, 'AddText:pushed-as-variable', at.where(e), 'new text is pushed as a RAW token')
+    sp = prog.fn('EvalString::AddSpecial')
+    pushes = [e for e in sp.events('call') if lastname(e.get('name') or '') in ('push_back', 'emplace_back')]
+    special = [e for e in pushes if mentions_enum(e.get('args'), 'EvalString::SPECIAL') and any(mentions_var(a, 'text') for a in e.get('args') or [])]
+    moved = [e for e in pushes if mentions_enum(e.get('args'), 'EvalString::RAW') and any(mentions_field(a, 'EvalString::single_token_') for a in e.get('args') or [])]
+    ctx.check('C12.EV1', len(special) == 1 and len(moved) == 1, sp.name, 'AddSpecial:pushes', sp.loc,
+              'AddSpecial() has one push of the name as SPECIAL and one push of the pending text as RAW (%d / %d)' % (len(special), len(moved)))
+    if len(special) == 1 and len(moved) == 1:
+        # with parsed_ empty and pending text, the SPECIAL push is reached only through the RAW push
+
+        def pending(b, i, s):
+            for key, pol, atom in sp.edge_facts(b, i, all=True):
+                t = dstr(atom)
+                a = strip(atom)
+                if isinstance(a, dict) and a.get('k') == 'call' and lastname(a.get('name') or '') == 'empty':
+                    if 'parsed_' in t and not pol:
+                        return False
+                    if 'single_token_' in t and pol:
+                        return False
+            return True
+        r = sp.find_path(None, lambda x: x is special[0], from_succ=sp.entry, is_blocker=lambda x: x is moved[0], edge_ok=pending)
+        ctx.check('C12.EV1', r is None, sp.name, 'AddSpecial:pending-text-lost', sp.where(special[0]),
+                  'text collected before the first variable is moved into the list before the variable is appended',
+                  witness=None if r is None else {'blocks': r[0]})
+        r = _path_to_exit(sp, special)
+        ctx.check('C12.EV1', r is None, sp.name, 'AddSpecial:name-dropped', sp.loc, 'AddSpecial() appends the name on every path')
+    ctx.floor('C12.EV1', 12)
+
+
+def _path_to_exit(f, blockers):
+    """A path from the entry to the exit block that passes none of the events (None if there is none)."""
+    seen = set()
+    st = [f.entry]
+    while st:
+        b = st.pop()
+        if b in seen or b is None:
+            continue
+        seen.add(b)
+        if any(any(e is k for k in blockers) for e in f.blocks[b]['ev']):
+            continue
+        if b == f.exit:
+            return [b]
+        st += [s for s in f.blocks[b]['succ'] if s is not None]
+    return None
